@@ -1,9 +1,48 @@
+import BertE.Drv.C01
+import BertE.Drv.C02
+import BertE.Drv.C03
+import BertE.Drv.C04
+import BertE.Drv.C05
 import BertE.Drv.C06
-/- One line in, one line out. The first word selects the model entry point. Core Lean only. -/
+import BertE.Drv.C07
+import BertE.Drv.C08
+import BertE.Drv.C09
+import BertE.Drv.C10
+import BertE.Drv.C11
+import BertE.Drv.C12
+import BertE.Drv.C13
+import BertE.Drv.C14
+import BertE.Drv.C15
+import BertE.Drv.C16
+import BertE.Drv.C17
+import BertE.Drv.C18
+import BertE.Drv.C19
+import BertE.Drv.C20
+/- One line in, one line out. The first word selects the model entry point. Core Lean only
+   (nothing reachable from here imports Mathlib, so this links as a `lean_exe`). -/
 
 def dispatch (line : String) : String :=
-  match (line.splitOn " ").filter (· ≠ "") with
+  match line.splitOn " " with
+  | "C01" :: args => BertE.Drv.C01.handle args
+  | "C02" :: args => BertE.Drv.C02.handle args
+  | "C03" :: args => BertE.Drv.C03.handle args
+  | "C04" :: args => BertE.Drv.C04.handle args
+  | "C05" :: args => BertE.Drv.C05.handle args
   | "C06" :: args => BertE.Drv.C06.handle args
+  | "C07" :: args => BertE.Drv.C07.handle args
+  | "C08" :: args => BertE.Drv.C08.handle args
+  | "C09" :: args => BertE.Drv.C09.handle args
+  | "C10" :: args => BertE.Drv.C10.handle args
+  | "C11" :: args => BertE.Drv.C11.handle args
+  | "C12" :: args => BertE.Drv.C12.handle args
+  | "C13" :: args => BertE.Drv.C13.handle args
+  | "C14" :: args => BertE.Drv.C14.handle args
+  | "C15" :: args => BertE.Drv.C15.handle args
+  | "C16" :: args => BertE.Drv.C16.handle args
+  | "C17" :: args => BertE.Drv.C17.handle args
+  | "C18" :: args => BertE.Drv.C18.handle args
+  | "C19" :: args => BertE.Drv.C19.handle args
+  | "C20" :: args => BertE.Drv.C20.handle args
   | _ => "bad-op"
 
 partial def loop (h : IO.FS.Stream) (out : IO.FS.Stream) : IO Unit := do
